@@ -391,3 +391,13 @@ def r6(ctx):
                 # put back: assigned value is the taken value itself, on the non-Complete arm
                 good = any(e == tk and 'Complete' not in cond_variants(prog, cl, bb) for bb, _, e in fa)
             ctx.check(good, 'R6', 'put-back', cl, 'a response that is not Complete is put back unchanged', 'maybe_process_response does not put a non-complete response back unchanged')
+
+
+# plumbing between the interface and the analysed functions (rules/plumbing.py)
+_run_before_plumbing = run
+
+
+def run(ctx):
+    _run_before_plumbing(ctx)
+    from rules import plumbing
+    plumbing.init_applies_config(ctx, 'R1', fields=('syncing', 'blocks_source'))
